@@ -158,12 +158,39 @@ type Struct struct {
 }
 
 func (g *gen) declareGlobals() {
-	s := g.s
-	set := g.set
+	g.set.Globals, g.set.Vars = DrawVars(g.s)
+}
+
+// FreshVars returns a copy of vars in which the pointer-passed variables
+// (pcnt, er) point to fresh copies of their current values, so that a run
+// cannot influence the inputs of another one.
+func FreshVars(vars map[string]any) map[string]any {
+	out := make(map[string]any, len(vars))
+	for k, v := range vars {
+		switch p := v.(type) {
+		case *int:
+			c := *p
+			out[k] = &c
+		case *error:
+			c := *p
+			out[k] = &c
+		default:
+			out[k] = v
+		}
+	}
+	return out
+}
+
+// DrawVars draws the declarations of the global variables ((*T)(nil), to be
+// initialised per run) and one assignment of run values for them. The names
+// and types are fixed; only the values depend on the stream.
+func DrawVars(s *choice.Stream) (native.Declarations, map[string]any) {
+	globals := native.Declarations{}
+	vars := map[string]any{}
 	pickS := func() string { return Strings[s.N(len(Strings))] }
 	decl := func(name string, ptr any, val any) {
-		set.Globals[name] = ptr
-		set.Vars[name] = val
+		globals[name] = ptr
+		vars[name] = val
 	}
 	decl("s1", (*string)(nil), pickS())
 	decl("s2", (*string)(nil), pickS())
@@ -200,6 +227,12 @@ func (g *gen) declareGlobals() {
 	decl("sg", (*Stringer)(nil), Stringer{S: pickS()})
 	ev := error(errors.New(pickS()))
 	decl("er", (*error)(nil), &ev) // interface-typed variables can only be passed by pointer
+	// cnt is assigned by templates: passed by value it must be copied per
+	// run, pcnt is passed by pointer and is shared with the caller.
+	decl("cnt", (*int)(nil), s.N(10))
+	pc := s.N(10)
+	decl("pcnt", (*int)(nil), &pc)
+	return globals, vars
 }
 
 // vals returns an expression of one of the given kinds.
@@ -471,7 +504,15 @@ func (g *gen) htmlBody(file string, depth int) string {
 	var b strings.Builder
 	n := g.s.Range(1, g.o.MaxPieces)
 	for i := 0; i < n; i++ {
-		switch g.s.N(20) {
+		switch g.s.N(22) {
+		case 20:
+			if g.feature("assign-global", 1, 2) {
+				fmt.Fprintf(&b, "{%% cnt = cnt + %d %%}%s", 1+g.s.N(5), g.show("cnt"))
+			}
+		case 21:
+			if g.feature("assign-global", 1, 2) {
+				fmt.Fprintf(&b, "{%% pcnt = pcnt + n1 %%}%s", g.show("pcnt"))
+			}
 		case 0, 1:
 			b.WriteString(g.text())
 		case 2, 3:
